@@ -492,6 +492,9 @@ fn execute_history(run: &Run, opts: &ExecOpts) -> Outcome {
             *s.fired.entry("enoent_read".into()).or_insert(0) += st.fired_enoent;
         }
     }
+    for (k, v) in &run.gen_faults {
+        *cx.out.stats.fired.entry(k.clone()).or_insert(0) += v;
+    }
     cx.out.log_hash = cx.log;
     cx.out.history_hash = hist;
     cx.out.nontrivial = cx.replaced_cached && cx.evaluated_checkpoint;
@@ -652,11 +655,8 @@ fn execute_c10(run: &Run, opts: &ExecOpts) -> Outcome {
     }
     let nonempty = results[0].first.code.is_some() || !results[0].first.emitted.is_empty();
     cx.out.nontrivial = nonempty;
-    let mut h = fs_hash(&fs);
-    for v in &run.variants {
-        h = fnv64_more(h, serde_json::to_string(v).unwrap().as_bytes());
-    }
-    cx.out.history_hash = h;
+    // distinct = distinct file-system state compared (the variant set varies with every run anyway)
+    cx.out.history_hash = fs_hash(&fs);
     cx.out.state_hashes.push(fs_hash(&fs));
     cx.out.log_hash = cx.log;
     cx.out
